@@ -92,6 +92,9 @@ func (u *universe) resolve(log *loadLog) (*jsonschema.Resolved, error, string) {
 	if len(u.remote) > 0 || len(u.faults) > 0 {
 		opts.Loader = u.loader(log)
 	}
+	if u.baseURI == "" && opts.Loader == nil {
+		opts = nil // "default values are used": the configuration without options at all
+	}
 	u.rootObj = &s
 	rs, err := s.Resolve(opts)
 	if err != nil {
